@@ -24,6 +24,10 @@ type ServiceMonitor struct {
 	config *config.Consul
 	dc     string
 	strict bool
+
+	// lastSvcs has the result of the last successful catalog
+	// lookup of every service which is currently passing.
+	lastSvcs map[string][]*api.CatalogService
 }
 
 func NewServiceMonitor(client *api.Client, config *config.Consul, dc string) *ServiceMonitor {
@@ -62,16 +66,19 @@ func (w *ServiceMonitor) Watch(updates chan string) {
 		passing := passingServices(prefixedChecks, w.config.ServiceStatus, w.strict)
 
 		// build the config for the passing services. A failed catalog
-		// lookup does not mean that the service has no instances: keep
-		// the current routes and ask again instead of publishing a
-		// config without the service and waiting for the next change.
+		// lookup does not mean that the service has no instances: the
+		// service keeps what its last lookup returned and we ask again
+		// instead of waiting for the next change. The other services
+		// must not wait for it: the lookup of a service may fail for as
+		// long as it is registered (e.g. consul refuses the request for a
+		// name with a non-printable character or for the name '..').
 		cfg, err := w.makeConfig(passing)
+		updates <- cfg
 		if err != nil {
 			log.Printf("[WARN] consul: Error building config. %v", err)
 			time.Sleep(time.Second)
 			continue
 		}
-		updates <- cfg
 
 		// remember the last state and wait for the next change
 		lastIndex = meta.LastIndex
@@ -108,51 +115,59 @@ func (w *ServiceMonitor) makeConfig(checks []*api.HealthCheck) (string, error) {
 	}
 
 	type result struct {
-		cfg []string
-		err error
+		name string
+		svcs []*api.CatalogService
+		cfg  []string
+		err  error
 	}
 
 	sem := make(chan int, n)
 	results := make(chan result, len(m))
 	for name, passing := range m {
-		name, passing := name, passing
+		name, passing, last := name, passing, w.lastSvcs[name]
 		go func() {
 			sem <- 1
-			cfg, err := w.serviceConfig(name, passing)
-			results <- result{cfg, err}
+			svcs, cfg, err := w.serviceConfig(name, passing, last)
+			results <- result{name, svcs, cfg, err}
 			<-sem
 		}()
 	}
 
 	var config []string
 	var firstErr error
+	lastSvcs := map[string][]*api.CatalogService{}
 	for i := 0; i < len(m); i++ {
 		r := <-results
 		if r.err != nil && firstErr == nil {
 			firstErr = r.err
 		}
+		lastSvcs[r.name] = r.svcs
 		config = append(config, r.cfg...)
 	}
-	if firstErr != nil {
-		return "", firstErr
-	}
+	w.lastSvcs = lastSvcs
 
 	// sort config in reverse order to sort most specific config to the top
 	sort.Sort(sort.Reverse(sort.StringSlice(config)))
 
-	return strings.Join(config, "\n"), nil
+	// the config is complete also when a lookup has failed. The
+	// error tells the caller to ask again.
+	return strings.Join(config, "\n"), firstErr
 }
 
 // serviceConfig constructs the config for all good instances of a single service.
-func (w *ServiceMonitor) serviceConfig(name string, passing map[instanceID]bool) (config []string, err error) {
+// When the catalog lookup fails the config is built from the result of the last
+// successful lookup and the error is returned with it. A service which has never
+// been looked up successfully has no config then: it is left out on its own.
+func (w *ServiceMonitor) serviceConfig(name string, passing map[instanceID]bool, last []*api.CatalogService) (svcs []*api.CatalogService, config []string, err error) {
 	if name == "" || len(passing) == 0 {
-		return nil, nil
+		return nil, nil, nil
 	}
 
 	q := &api.QueryOptions{RequireConsistent: w.config.RequireConsistent, AllowStale: w.config.AllowStale}
-	svcs, _, err := w.client.Catalog().Service(name, "", q)
+	svcs, _, err = w.client.Catalog().Service(name, "", q)
 	if err != nil {
-		return nil, fmt.Errorf("cannot get catalog service %s. %v", name, err)
+		err = fmt.Errorf("cannot get catalog service %q. %v", name, err)
+		svcs = last
 	}
 
 	env := map[string]string{
@@ -174,7 +189,7 @@ func (w *ServiceMonitor) serviceConfig(name string, passing map[instanceID]bool)
 
 		config = append(config, cmds...)
 	}
-	return config, nil
+	return svcs, config, err
 }
 
 // checksWithTagPrefix filters a list of Consul Health Checks to only the Checks with a Tag that begins with the prefix
